@@ -89,5 +89,8 @@ def run_driver(name, args, timeout=3600, ok_codes=(0,), env=None):
     drv = os.path.join(vlib.BUILD_DIR, name)
     p = vlib.run([drv] + args, timeout=timeout, check=False, env=env)
     if p.returncode not in ok_codes:
-        raise Infra("%s failed rc=%d: %s" % (name, p.returncode, (p.stderr or "")[-3000:]))
+        err = p.stderr or ""
+        if len(err) > 7000:   # the head names the panic / fatal error and the dying goroutine, the tail the exit status
+            err = err[:4000] + "\n[...]\n" + err[-3000:]
+        raise Infra("%s failed rc=%d: %s" % (name, p.returncode, err))
     return p
